@@ -82,6 +82,11 @@ pub fn live_rules(rules: &[NetworkFilter]) -> Vec<&NetworkFilter> {
 }
 /// Rule-by-rule evaluation with the documented precedence (independent of the engine's index).
 pub fn spec_verdict(rules: &[NetworkFilter], tags: &HashSet<String>, req: &Request) -> V {
+    spec_verdict_p(rules, tags, req, false, false)
+}
+/// The same for Engine::check_network_request_subset (`mr` = previously_matched_rule, `fc` =
+/// force_check_exceptions).
+pub fn spec_verdict_p(rules: &[NetworkFilter], tags: &HashSet<String>, req: &Request, mr: bool, fc: bool) -> V {
     if !req.is_supported {
         return V { matched: false, important: false, exception: false, filter: false };
     }
@@ -89,15 +94,20 @@ pub fn spec_verdict(rules: &[NetworkFilter], tags: &HashSet<String>, req: &Reque
     let tag_ok = |f: &NetworkFilter, t: &HashSet<String>| adblock::verif_hooks::filter_tag(f).map(|x| t.contains(x)).unwrap_or(true);
     let none = HashSet::new();
     let imp = live.iter().any(|f| category(f) == "important" && tag_ok(f, tags) && rule_matches(f, req));
-    let blk = live.iter().any(|f| {
-        (category(f) == "tagged" && tag_ok(f, tags) && rule_matches(f, req))
-            || (category(f) == "normal" && tag_ok(f, &none) && rule_matches(f, req))
-    });
+    let blk = !mr
+        && live.iter().any(|f| {
+            (category(f) == "tagged" && tag_ok(f, tags) && rule_matches(f, req))
+                || (category(f) == "normal" && tag_ok(f, &none) && rule_matches(f, req))
+        });
     let exc = live.iter().any(|f| category(f) == "exception" && tag_ok(f, tags) && rule_matches(f, req));
-    V { matched: imp || (blk && !exc), important: imp, exception: !imp && blk && exc, filter: imp || blk }
+    let excp = !imp && exc && (blk || mr || fc);
+    V { matched: !excp && (imp || blk || mr), important: imp, exception: excp, filter: imp || blk }
 }
 pub fn engine_verdict(e: &Engine, req: &Request) -> V {
-    let r = e.check_network_request(req);
+    engine_verdict_p(e, req, false, false)
+}
+pub fn engine_verdict_p(e: &Engine, req: &Request, mr: bool, fc: bool) -> V {
+    let r = if !mr && !fc { e.check_network_request(req) } else { e.check_network_request_subset(req, mr, fc) };
     V { matched: r.matched, important: r.important, exception: r.exception.is_some(), filter: r.filter.is_some() }
 }
 pub fn build_engine(lines: &[String], tags: &[&str], optimize: bool) -> Engine {
